@@ -154,6 +154,26 @@ def cmdGenText : P String := do
 
 /-! ## the verdict -/
 
+/-- the class of input on which the generator used to fail before dfa0aa0 / a32447a / a04eec4 (evidence feature
+    `risk=`: these stay covered as regression inputs and must now succeed like any other description):
+    package name a Go keyword or `main`; `@IMPORTS@` in the interface documentation; the old substring tests
+    (`json.RawMessage`, `fmt.Sprintf` anywhere in the emitted text, i.e. also in documentation and names)
+    disagreeing with what the declarations use -/
+def formerDefect (t : Idl) : String :=
+  if goKeywords.contains (pkgBase t.name) then "keyword-package"
+  else if pkgBase t.name == str "main" then "main-package"
+  else if contains (str "@IMPORTS@") t.doc then "placeholder-in-doc"
+  else match genTextO t with
+    | some s =>
+      if contains (str "json.RawMessage") s != usesJson t || contains (str "fmt.Sprintf") s != usesFmt t
+      then "import-mention" else "none"
+    | none => "none"
+
+/-- the import paths `imports_spec` (Props/C07.lean) promises -/
+def expectedImports (t : Idl) : List Bytes :=
+  [str "github.com/varlink/go/varlink", str "context"]
+  ++ (if usesJson t then [str "encoding/json"] else []) ++ (if usesFmt t then [str "fmt"] else [])
+
 mutual
 partial def tyKinds : Ty → List Nat
   | .bool => [0] | .int => [1] | .float => [2] | .string => [3] | .object => [4]
@@ -196,14 +216,14 @@ def cmdGen : P String := do
   let mo := genTextO t
   let mf := genFile t
   let dom := Domain t
-  let kdf := KnownDefectFree t
+  let risk := formerDefect t
   let kinds := distinctKinds t
   let domS := match outsideBecause t with | none => "in" | some r => s!"out:{r}"
   let wf : Option Bool := mf.map wellFormed
   let wfS := match mf with
     | none => "crash"
     | some f => match firstFailure f with | none => "ok" | some r => s!"no:{r}"
-  let feats := s!"nt={if kinds ≥ 2 then 1 else 0} src={bstr tag} dom={domS} kdf={if kdf then 1 else 0} model={wfS} real={real} compile={compile} probe={probe} members={t.members.length} kinds={kinds}"
+  let feats := s!"nt={if kinds ≥ 2 then 1 else 0} src={bstr tag} dom={domS} risk={risk} model={wfS} real={real} compile={compile} probe={probe} members={t.members.length} kinds={kinds}"
   -- harness and driver must talk about the same model text
   match mo with
   | none => if !modelCrash then return s!"DIFF C07 harness-driver-desync {feats}"
@@ -237,22 +257,26 @@ def cmdGen : P String := do
     if probe == "ok" then
       if pname != t.name then return s!"DIFF C07 reports-other-name {feats}"
       if pdesc != t.description ++ [10] then return s!"DIFF C07 reports-other-description {feats}"
-    -- the description-level characterisation of "imports = packages used" against the view-level check
-    if importsExact t != importsOk f then return s!"DIFF C07 model-mismatch:imports-characterisation {feats}"
+    -- theorems that hold for every file the generator returns (gen_importsOk, imports_spec), evaluated
+    if !importsOk f then return s!"DIFF C07 theorem-contradicted:imports {feats}"
+    if f.imports != expectedImports t then return s!"DIFF C07 theorem-contradicted:imports-spec {feats}"
   -- the property itself, on the observation
   if dom then
     if real == "crash" then return s!"DIFF C07 crash-in-domain {feats}"
     if real == "err" then
-      if goKeywords.contains (pkgName t.name) then return s!"DIFF C07 generator-error-keyword-package {feats}"
-      if !placeholderSafe t then return s!"DIFF C07 generator-error-imports-placeholder-in-doc {feats}"
+      -- the reasons of the repaired defects stay stable, so that a regression is recognised as such
+      if risk == "keyword-package" then return s!"DIFF C07 generator-error-keyword-package {feats}"
+      if risk == "placeholder-in-doc" then return s!"DIFF C07 generator-error-imports-placeholder-in-doc {feats}"
       return s!"DIFF C07 generator-error-in-domain {feats}"
     if compile == "fail" then
       if ccls == str "unused-import" then return s!"DIFF C07 compiler-rejects-unused-import {feats}"
       if ccls == str "package-main" then return s!"DIFF C07 package-main-not-importable {feats}"
       return s!"DIFF C07 compiler-rejects-in-domain-{bstr ccls} {feats}"
-    if kdf && real != "ok" then return s!"DIFF C07 theorem-contradicted:total {feats}"
-    -- what the theorems promise must hold at run time too
-    if kdf && wf != some true then return s!"DIFF C07 theorem-contradicted:wellformed {feats}"
+    if probe == "main" then return s!"DIFF C07 package-main-not-importable {feats}"
+    if real != "ok" then return s!"DIFF C07 theorem-contradicted:total {feats}"
+    -- what the theorems promise must hold at run time too, on EVERY description of the domain
+    if (mf.map pkgOk) != some true then return s!"DIFF C07 theorem-contradicted:package-name {feats}"
+    if wf != some true then return s!"DIFF C07 theorem-contradicted:wellformed {feats}"
   return s!"OK {feats}"
 
 /-- `genperr x<tag> x<description> | <real>`: the real parser rejected the description; the generator must
